@@ -45,6 +45,7 @@ class Sim:
         self.facts = {"roots": [], "stores": [], "persists": [], "point": [], "diffs": [], "heights": [], "loads": []}
         self.cur_root = {}   # tree id -> root json the tree currently equals (unmodified since persist / load)
         self.tree_root = {}  # (tree id, op idx) -> that root, recorded at diff time
+        self.hash_rooted = set()  # trees whose root link is a hash string (persisted or loaded, not a clone: Clone holds a node pointer)
         self.mods = {}       # tree id -> keys modified since base
         self.hchg = {}       # tree id -> height changed since base
         self.lasth = {}
@@ -152,6 +153,7 @@ class Sim:
                 self.trees[n] = dict(d); self.base[n] = self.base.get(tid); self.tbf[n] = self.tbf[tid]
                 self.mods[n] = set(self.mods[tid]); self.hchg[n] = self.hchg[tid]; self.lasth[n] = self.lasth.get(tid, 0)
                 self.cur_root[n] = self.cur_root.get(tid)
+                self.hash_rooted.discard(n)
                 self.facts["point"].append((idx, "clone", None, len(ob["loads"]), None, None))
         elif op == "dirty":
             if self.expect("dirty", idx, ob, "ok"):
@@ -168,7 +170,12 @@ class Sim:
                                                "loads": list(ob["loads"]), "mods": set(self.mods[tid]), "hchg": self.hchg[tid],
                                                "base": self.base.get(tid), "contents": dict(d), "bf": self.tbf[tid]})
                 self.base[tid] = dict(d); self.mods[tid] = set(); self.hchg[tid] = False
-                self.cur_root[tid] = r
+                self.cur_root[tid] = r; self.hash_rooted.add(tid)
+        elif op == "loadord":
+            rid = int(t[1])
+            snap, r = self.roots.get(rid, (None, None))
+            topb = self.store.get(r["Link"]) if r and r.get("Link") else None
+            self.facts["loads"].append((idx, "loadord", ob["outcome"], rid, t, len(ob["loads"]), topb))
         elif op == "load":
             rid, tid = int(t[1]), int(t[2])
             snap, r = self.roots.get(rid, (None, None))
@@ -180,7 +187,7 @@ class Sim:
                 if self.expect("load", idx, ob, "ok"):
                     self.trees[tid] = dict(snap); self.base[tid] = dict(snap); self.tbf[tid] = r["BranchFactor"]
                     self.mods[tid] = set(); self.hchg[tid] = False; self.lasth[tid] = r["Height"]
-                    self.cur_root[tid] = r
+                    self.cur_root[tid] = r; self.hash_rooted.add(tid)
             elif ob["outcome"] == "ok":
                 self.trees[tid] = None
         elif op == "rootset":
@@ -256,9 +263,11 @@ class Sim:
                 self.facts["diffs"].append((idx, "diff", tid, t[2], ob))
         elif op == "difflinks":
             self.expect("difflinks", idx, ob, "ok")
-            self.tree_root[(tid, idx)] = self.cur_root.get(tid)
+            # C07 speaks about persisted versions: both roots must be hash links (a clone holds a node pointer,
+            # which the callback receives as such, without a name)
+            self.tree_root[(tid, idx)] = self.cur_root.get(tid) if tid in self.hash_rooted else None
             if t[2] != "-":
-                self.tree_root[(int(t[2]), idx)] = self.cur_root.get(int(t[2]))
+                self.tree_root[(int(t[2]), idx)] = self.cur_root.get(int(t[2])) if int(t[2]) in self.hash_rooted else None
             self.facts["diffs"].append((idx, "difflinks", tid, t[2], ob))
 
     roots_perturbed = None
@@ -472,6 +481,21 @@ def check_reject(sim):
     and the loader's key kind; element bodies that Python cannot judge give no expectation."""
     KNOWN = ("v1.1.5binary", "v1marshaler", "")
     for f in sim.facts["loads"]:
+        if f[1] == "loadord":
+            # an unperturbed root loaded under a different caller-supplied key order
+            idx, _, outcome, rid, t, _, topb = f
+            snap, r = sim.roots.get(rid, (None, None))
+            if r is None or sim.roots_perturbed.get(rid) or r.get("Link") is None or topb is None:
+                continue
+            why = _node_mismatch(topb, r.get("NodeFormat") or "v1marshaler", int(t[4]), r["Height"], r["BranchFactor"], order=t[5])
+            if outcome == "panic":
+                sim.fail("reject", idx, "LoadMast panicked instead of returning an error (%s)" % " ".join(t))
+            elif why and outcome == "ok":
+                sim.fail("reject", idx, "LoadMast accepted a root it must reject: %s" % why, why=why)
+            elif not why and outcome != "ok":
+                sim.fail("reject", idx, "LoadMast rejected a root whose top node is in order under the loader's key order")
+            sim.facts.setdefault("reject_cases", []).append((idx, why, outcome))
+            continue
         if f[1] != "load":
             continue
         idx, _, outcome, rid, t, _, topb = f
@@ -500,7 +524,7 @@ def check_reject(sim):
             sim.fail("reject", idx, "LoadMast accepted a root it must reject: %s" % why, why=why)
         sim.facts.setdefault("reject_cases", []).append((idx, why, outcome))
 
-def _node_mismatch(b, fmt, kind, height, bf):
+def _node_mismatch(b, fmt, kind, height, bf, order=None):
     try:
         if fmt == "v1marshaler":
             b.decode("utf-8")
@@ -530,8 +554,9 @@ def _node_mismatch(b, fmt, kind, height, bf):
             return None
     if bf < 2:
         return None
+    ks_ = (lambda tk: tk.split(":", 1)[1]) if order == "text" else key_sort   # "text": the printed decimal form
     for a, c in zip(toks, toks[1:]):
-        if not key_sort(a) < key_sort(c):
+        if not ks_(a) < ks_(c):
             return "top node keys not strictly ascending under the configured order"
     for k in toks:
         if key_layer(k, bf) < height:
